@@ -318,6 +318,7 @@ func runC04(c *Ctx) {
 	shared := g.Chance(3)
 	var tickers []*zapcore.BufferedWriteSyncer
 	bufSize := 0
+	unjudged := map[*zsim.SimSink]bool{}
 	for b := 0; b < nBranch; b++ {
 		br := &c04branch{level: stdLevels[g.Weighted(4, 2, 2, 1)], console: g.Chance(4), kind: g.Draw(6), shares: -1}
 		if br.kind == 5 {
@@ -368,6 +369,17 @@ func runC04(c *Ctx) {
 			br.bws.Clock = clk.For(unsafe.Pointer(br.bws), unsafe.Sizeof(*br.bws))
 			br.ws = br.bws
 			tickers = append(tickers, br.bws)
+		}
+		if (br.kind == 2 || br.kind == 3) && c.F.Chance(6) {
+			// one member of a combined syncer takes only part of what it is given
+			// and says so in its count, without an error: it is not judged, the
+			// member next to it still receives exactly the intact lines
+			s := br.sinks[c.F.Draw(2)]
+			for i := 0; i < 6; i++ {
+				s.WritePlan = append(s.WritePlan, zsim.Outcome{Short: 1 + c.F.Draw(5)})
+			}
+			unjudged[s] = true
+			c.Fault("member-short-count-without-error")
 		}
 		br.core = zapcore.NewCore(newEncoderCaller(br.console, withCaller), br.ws, br.level)
 		br.refBuf = &bytes.Buffer{}
@@ -620,7 +632,7 @@ func runC04(c *Ctx) {
 	}
 	for bi, br := range branches {
 		for _, sink := range br.sinks {
-			if br.flaky {
+			if br.flaky || unjudged[sink] {
 				continue
 			}
 			if br.shared {
